@@ -318,6 +318,30 @@ def run_shard(shard) -> Result:
                 res.outcome(hash(key))
                 for kind, detail in viols:
                     res.violation(kind, {'table': sorted(table), 'M': M.tolist(), 'w': w, 'cut': cut, 'order': (t_index + w) % 2, 'sites': shard.get('sites', 'base')}, detail)
+    if shard['kind'] == 'triples':
+        # the same tables through the Jumps API (n_solo_jumps, solo_fraction), window from the real attempt frequency
+        from gemdat.jumps import Jumps
+
+        traj = concretise.vib_traj(3, 12, M, 1e-15)
+        sites = concretise.make_sites(np.array(SF), ['A', 'A', 'B', 'B'][: len(SF)], M)
+        nu = float(traj.metrics().attempt_frequency()[0])
+        w_real = math.ceil(1.0 / (nu * 1e-15))
+        for t_index, table in enumerate(tables[:: max(1, len(tables) // 40)]):
+            if len(set(table)) != len(table):
+                continue
+            rows = sorted(table)
+            df = pd.DataFrame(data=np.array(rows, dtype=int).reshape(-1, 5), columns=COLS)
+            trn = types.SimpleNamespace(diff_trajectory=traj, sites=sites, n_sites=len(SF))
+            try:
+                j = Jumps(trn, conversion_method=lambda t, minimal_residence=0, _df=df: _df.copy())
+                exp = ref_pairs(set(table), w_real, 1.0, D)  # Jumps.n_solo_jumps uses the default cut-off of 1 A
+                solo_exp = len(rows) - len({r for p in exp for r in p})
+                res.evals += 1
+                if j.n_solo_jumps != solo_exp or abs(j.solo_fraction - solo_exp / len(rows)) > 1e-12:
+                    res.violation('jumps-n-solo-jumps-wrong', {'table': rows, 'M': M.tolist(), 'w': w_real, 'cut': 1.0, 'sites': shard.get('sites', 'base')}, f'Jumps.n_solo_jumps={j.n_solo_jumps} solo_fraction={j.solo_fraction} expected {solo_exp} of {len(rows)} (pairs {len(exp)})')
+                impl.clear_weak_caches()
+            except Exception as e:  # noqa: BLE001
+                res.violation(f'jumps-api-raise-{type(e).__name__}', {'table': rows, 'M': M.tolist(), 'w': 0, 'cut': 1.0}, str(e))
     res.states += len(tables)
     res.transitions += res.evals
     res.sample({'table': sorted(tables[len(tables) // 2]), 'windows': WINDOWS[tier], 'cutoffs': cuts, 'lattice': shard['lat']})
